@@ -240,8 +240,10 @@ def run(ctx):
                     bad.append("the ratio is evaluated on this iteration's *resampled* population (all incremental weights are equal there)")
                 else:
                     bad.append(f"the ratio is evaluated on {T.show(recv)[:100]}, not on the population at the loop head")
-            if arg != body_b or not ok_beta:
-                bad.append(f"the ratio uses temperature {T.show(arg)[:100]}, not this iteration's determine_beta result")
+            # what C08 needs is that the increment is taken at the temperature the iteration *moves to* (the one resample / mutate use and the loop carries on);
+            # how that temperature was chosen is C06's / C07's business (C06.once, C07once)
+            if arg != body_b:
+                bad.append(f"the ratio uses temperature {T.show(arg)[:100]}, not the temperature this iteration moves to ({T.show(body_b)[:80] if body_b else None})")
             ctx.decide(not bad, "C08.pre", sample.ident, loc_of(sample, e.node),
                        f"[{tag}] {callee[7:]} evaluated on the pre-resampling population with this iteration's temperature",
                        f"[{tag}] " + "; ".join(bad), disc=f"{tag}|{series}")
@@ -329,6 +331,8 @@ MUTANTS += [
       more=[("class SMCSampler(MCMCSampler):", "def _running_total(values):\n    total = values[0]\n    for value in values[1:]:\n        total += value\n    return total\n\n\nclass SMCSampler(MCMCSampler):")]),
 ]
 NEUTRALS = [
+    M("loop adjusts the temperature after the search; the increment is taken at the adjusted one", "src/aspire/samplers/smc/base.py", "self.history.eff_target.append(\n                    self.current_target_efficiency(beta)\n                )",
+      "if beta > 1.0 - 1e-12:\n                    beta = 1.0\n                self.history.eff_target.append(\n                    self.current_target_efficiency(beta)\n                )"),
     M("evidence total accumulated by a helper loop into a fresh local", "src/aspire/samplers/smc/base.py", "samples.log_evidence = samples.xp.sum(\n            asarray(self.history.log_norm_ratio, self.xp)\n        )",
       "samples.log_evidence = asarray(_running_total(self.history.log_norm_ratio), samples.xp)",
       more=[("class SMCSampler(MCMCSampler):", "def _running_total(values):\n    total = 0.0\n    for value in values:\n        total = total + value\n    return total\n\n\nclass SMCSampler(MCMCSampler):")]),
